@@ -17,6 +17,11 @@ class ConvertError(Exception):
 
 # ----------------------------------------------------------------------------- tokens -> model lines
 
+
+class QStr(str):
+    """body of a .string literal together with the quote character it is written with"""
+    q = '"'
+
 def _codes(s):
     return [ord(c) for c in s]
 
@@ -237,6 +242,14 @@ def gen_abs(rng, allow_pseudo=True, n_max=14):
             ap.data.append((names[k], kind, vals))
         elif kind == "string":
             s = "".join(rng.choice("abc XYZ09!?,;" + ("üé€Ω" if rng.random() < 0.15 else "")) for _ in range(rng.randrange(0, 8)))
+            if rng.random() < 0.35:
+                # every literal form pp.quoted_string admits: either quote character, the other quote inside, the own quote
+                # escaped or doubled, backslash pairs — at the ends of the body as well (the stored bytes are the body as written)
+                q = rng.choice("\"'")
+                o = "'" if q == '"' else '"'
+                pieces = [rng.choice(["a", "Z", " ", "7", o, "\\" + q, "\\\\", q + q, "\\n", o + o]) for _ in range(rng.randrange(0, 6))]
+                s = QStr("".join(pieces))
+                s.q = q
             ap.data.append((names[k], kind, s))
         else:
             ap.data.append((names[k], kind, rng.randrange(0, 5)))
@@ -397,7 +410,8 @@ def render(rng, ap: AbsProg, noise=True):
         if kind in ("byte", "half", "word"):
             dl.append(f"{name}: .{kind} " + ", ".join(_spell_num(rng, v) for v in payload))
         elif kind == "string":
-            dl.append(f'{name}: .string "{payload}"')
+            q = getattr(payload, "q", '"')
+            dl.append(f"{name}: .string {q}{payload}{q}")
         else:
             dl.append(f"{name}: .zero {payload}")
     if ap.order == "data-first":
